@@ -665,6 +665,7 @@ class Unit:
         callees = {}
         forward = []
         live = {}
+        okfrom = None
         guard_re = None
         for ln, l in block:
             st = l.strip()
@@ -676,6 +677,9 @@ class Unit:
                 ttype = dict((t.split(':') + ['usize'])[:2] for t in h[6:].split())
             elif h.startswith('forward '):
                 forward = h[8:].split()
+            elif h.startswith('okfrom '):
+                # every Ok(..) the function builds itself must be made of values it got from one of these callees
+                okfrom = h[7:].split()
             elif h.startswith('live '):
                 # callee parameter => expression it must be given (the live value of a local), e.g. pre_defines=&defines
                 for kv in h[5:].split():
@@ -726,6 +730,17 @@ class Unit:
                 if len(args) != len(info['params']):
                     raise ExtractError('%s: call to %s has %d args, signature has %d' % (where, cname, len(args), len(info['params'])))
                 events.append((k, 'call', (cname, dict(zip(info['params'], args)), c + 1)))
+        if okfrom is not None:
+            bound = set()
+            for cname in okfrom:
+                for m in re.finditer(r'\blet\s+(\(?[\w\s,]+\)?)\s*=\s*(?:[\w:]+::)?%s\s*\(' % cname, body_m):
+                    bound |= set(re.findall(r'\w+', m.group(1))) - {'mut'}
+            for m in re.finditer(r'(?<![\w.:])Ok\s*\(', body_m):
+                o = lo + m.end() - 1
+                c = match_close(s.masked, o)
+                inner = set(re.findall(r'[A-Za-z_]\w*', s.masked[o + 1:c]))
+                ok = bool(inner) and inner <= bound
+                events.append((lo + m.start(), 'okfrom', (ok, re.sub(r'\s+', ' ', s.text[lo + m.start():c + 1])[:80])))
         events.sort(key=lambda e: e[0])
         self.rewrites.append(('R-slice recursion skeleton of %s: %d guard(s), %d call(s) kept, everything else dropped' % (
             name, len([e for e in events if e[1] == 'guard']), len([e for e in events if e[1] == 'call'])), where, 1))
@@ -737,6 +752,11 @@ class Unit:
             nested = depth != 0 or pre.count('(') != pre.count(')')
             ln = s.line_of(k)
             org = ('repo', s.path, ln)
+            if kind == 'okfrom':
+                ok, txt = payload
+                self.lines.append(Line('    if vx_nondet() { assert(%s); }   // %s' % ('true' if ok else 'false', txt.replace('\n', ' ')),
+                                       ('spec', base, tline, name, 'C20.result-built-without-%s' % '-or-'.join(okfrom), ['C20']), name + '_slice'))
+                continue
             if kind == 'guard':
                 a, b = payload
                 text = s.text[a:b]
